@@ -574,7 +574,7 @@ func siblingBlockPrograms() [][]string {
 	out = append(out,
 		[]string{"local a, b = 1, 2", "local c = a..b..a", "print(c, a..b..c)"},
 		[]string{"local a = 1", "while (function(b) return a and b end)(a) do a = nil end"},
-		[]string{"local a = {}", "for b, c in next, a do print(b, c) end", "for b in string.gmatch(\"s\", \"s\") do print(b) end"},
+		[]string{"local function a() end", "for b, c in a, a do print(b, c) end", "for b in a do print(b) end", "for b, c in a() do print(c) end"},
 		[]string{"local a <const>, b <const> = 1, 2", "print(a, b)"},
 		[]string{"local a <close>, b = nil, 2", "print(a, b)"},
 		[]string{"local s = [[", "x]]", "local a = 1", "local function f(b)", "  return a, b", "end", "print(a, f)"},
